@@ -71,7 +71,9 @@ def runSection (r : Report) (s : Section) : Report := Id.run do
   -- the history must be a visible trace of the Lean model
   if viol.isEmpty then
     match Explain.explain mode h with
-    | .ok steps => r := r.addCover s!"{mode}-explained" 1 |>.addCover s!"{mode}-model-steps" steps
+    | .ok (steps, tags) =>
+      r := r.addCover s!"{mode}-explained" 1 |>.addCover s!"{mode}-model-steps" steps
+      for t in tags do r := r.addCover t
     | .error (ln, model, impl) => r := r.mismatch s.idx ln model impl
   -- coverage counters
   r := r.addCover s!"{mode}-sections"
